@@ -246,13 +246,19 @@ func (fs *FS) String() string {
 }
 
 // apply replays the calls that returned onto fs (names, sizes, directories).
-func (fs *FS) apply(calls []Call) {
+// It returns the kinds of modifying calls the model does not know; when that
+// list is not empty the prediction is not to be trusted (self-check skipped).
+func (fs *FS) apply(calls []Call) (unsupported []string) {
 	fds := map[int]*simFD{}
 	for _, c := range calls {
 		if !c.Done {
 			continue
 		}
 		switch c.Name {
+		case "pwrite64", "pwritev", "pwritev2", "sendfile", "copy_file_range", "splice", "bind":
+			if c.Ret > 0 || (c.Name == "bind" && c.Ret == 0) {
+				unsupported = append(unsupported, c.Name)
+			}
 		case "open", "openat", "openat2", "creat":
 			if c.Ret < 0 {
 				continue
@@ -299,8 +305,30 @@ func (fs *FS) apply(calls []Call) {
 					}
 				}
 			} else if fs.Dirs[c.Path] {
-				delete(fs.Dirs, c.Path)
-				fs.Dirs[c.Path2] = true
+				// a directory moves with everything below it
+				pre := c.Path + "/"
+				moved := func(p string) (string, bool) {
+					if p == c.Path {
+						return c.Path2, true
+					}
+					if strings.HasPrefix(p, pre) {
+						return c.Path2 + "/" + p[len(pre):], true
+					}
+					return p, false
+				}
+				nf, nd := map[string]int64{}, map[string]bool{}
+				for f, n := range fs.Files {
+					q, _ := moved(f)
+					nf[q] = n
+				}
+				for d := range fs.Dirs {
+					q, _ := moved(d)
+					nd[q] = true
+				}
+				fs.Files, fs.Dirs = nf, nd
+				for _, fd := range fds {
+					fd.path, _ = moved(fd.path)
+				}
 			}
 		case "unlink", "unlinkat", "rmdir":
 			if c.Ret != 0 {
@@ -330,6 +358,7 @@ func (fs *FS) apply(calls []Call) {
 			delete(fs.Files, f)
 		}
 	}
+	return unsupported
 }
 
 func (fs *FS) clone() *FS {
